@@ -29,28 +29,28 @@ type Pkg struct {
 
 type FuncDeclInfo struct {
 	litParams bool // bind the parameters of the function literal being inlined instead of the declaration's
-	key  string
-	decl *ast.FuncDecl
-	obj  *types.Func
-	pkg  *Pkg
+	key       string
+	decl      *ast.FuncDecl
+	obj       *types.Func
+	pkg       *Pkg
 }
 
 type Verifier struct {
-	fnIDs      map[string]int
-	pkgs       []*Pkg
-	pkgByTypes map[*types.Package]*Pkg
-	decls      map[string]*FuncDeclInfo
-	contracts  *Contracts
-	fset       *token.FileSet
-	meths      map[string]int
-	typeIDs    map[string]int
-	colSorts   map[string]string
-	colTypes   map[string]types.Type
-	loopCache  map[*ast.FuncDecl]map[ast.Node]int
-	litCache   map[*ast.FuncDecl]map[*ast.FuncLit]int
-	globalInit map[*types.Var]ast.Expr
-	globalPkg  map[*types.Var]*Pkg
-	traceMemo  map[string]int
+	fnIDs        map[string]int
+	pkgs         []*Pkg
+	pkgByTypes   map[*types.Package]*Pkg
+	decls        map[string]*FuncDeclInfo
+	contracts    *Contracts
+	fset         *token.FileSet
+	meths        map[string]int
+	typeIDs      map[string]int
+	colSorts     map[string]string
+	colTypes     map[string]types.Type
+	loopCache    map[*ast.FuncDecl]map[ast.Node]int
+	litCache     map[*ast.FuncDecl]map[*ast.FuncLit]int
+	globalInit   map[*types.Var]ast.Expr
+	globalPkg    map[*types.Var]*Pkg
+	traceMemo    map[string]int
 	closedFields map[string]bool
 }
 
@@ -402,6 +402,16 @@ func (v *Verifier) globalLiteral(ob *types.Var) (string, bool) {
 
 // mayTouchTrace: does the function (transitively) call abstract callees (interface methods, function values)?
 // Callers must then treat the ghost call trace as changed by the call.
+// enclosingFuncKey names the declared function whose body contains pos.
+func (v *Verifier) enclosingFuncKey(pkg *Pkg, pos token.Pos) string {
+	for key, fd := range v.decls {
+		if fd.pkg == pkg && fd.decl.Body != nil && fd.decl.Pos() <= pos && pos < fd.decl.End() {
+			return key
+		}
+	}
+	return ""
+}
+
 func (v *Verifier) mayTouchTrace(key string) bool {
 	if v.traceMemo == nil {
 		v.traceMemo = map[string]int{}
